@@ -20,7 +20,7 @@ ASSUMPTIONS = ['exact unfolding ranks of D(x) are measured by the harness (singu
                '1e3*u*S_rep < 0.1*eps*||D(x)|| so representation roundoff cannot legitimately hold a rank up',
                '"rmax binding" decided conservatively: error clause skipped whenever a returned rank equals its cap']
 REQUIRED_REACH = ['_decomposition:round_tt', '_decomposition:lr_orthogonal', '_decomposition:rank_chop', '_tt_base:TT.round']
-REQUIRED_COUNTS = {'kind:tensor': 1, 'kind:operator': 1, 'order1': 1, 'rmax:int': 1, 'rmax:list': 1, 'eps:zero': 1, 'rank_decreased_executions': 50,
+REQUIRED_COUNTS = {'history_value_checks': 200, 'kind:tensor': 1, 'kind:operator': 1, 'order1': 1, 'rmax:int': 1, 'rmax:list': 1, 'eps:zero': 1, 'rank_decreased_executions': 50,
                    'breakpoints_bisected': 5, 'operand_checked_bit_identical': 100, 'exact_rank_clause_applied': 20}
 LINE_FUNCS = ['round_tt', 'lr_orthogonal', 'TT.round', 'rank_chop']
 CASE_TIMEOUT = {'quick': 120, 'thorough': 300}
@@ -56,6 +56,8 @@ def cases(tier, seed):
     for i in range(24 if not T else 300):
         cs.append({'gen': 'breakpoints', 'kind': 'tail', 'N': [0, 0, 0] if i % 3 else [2, 0, 0, 0], 'M': None if i % 4 != 3 else 'ones', 'dtype': ['f64', 'c128', 'f64', 'f32'][i % 4],
                    'rmax': 'none', 'grid': 20 if not T else 40, 'r': rng.randint(5, 12)})
+    from .. import hist
+    cs += hist.cases(PROP, tier, seed)
     return cs
 
 
@@ -258,6 +260,11 @@ def prep(case, ctx, g):
 def run_case(case, ctx):
     g = gens.tgen(case['seed'])
     globals()['run_' + case['gen']](case, ctx, g)
+
+
+def run_hist(case, ctx, g):
+    from .. import hist
+    hist.run(PROP, case, ctx)
 
 
 def run_random(case, ctx, g):
